@@ -33,7 +33,7 @@ STATE_MEASURE = 'distinct (descriptor counts per message, max descriptors queued
 PROBES = ['fd-of-next-message-queued-early', 'fds-of-two-later-messages-queued',
           'fd-with-last-byte', 'fd-with-first-byte', 'plain-message-between-fd-messages',
           'index-out-of-order', 'three-descriptors', 'send-side', 'read-spans-messages', 'undecodable-message-with-descriptors',
-          'dropped-at-undecodable-message', 'prepared-message-sent-twice', 'receiver-is-client-connection']
+          'dropped-at-undecodable-message', 'prepared-message-sent-twice', 'receiver-is-client-connection', 'receiver-accepts-pipelined-handshake', 'same-descriptor-in-two-arguments']
 COMPONENTS = {
     'real': ['txdbus.protocol.BasicDBusProtocol (fileDescriptorReceived, rawDBusMessageReceived)',
              'txdbus.message.parseMessage / txdbus.marshal unmarshal_unix_fd',
@@ -131,6 +131,7 @@ def recv_side(ctx):
         def errorReceived(self, m):
             record.append(m)
 
+    pipelined = False
     client_rx = ds.flag(0.3)
     if client_rx:
         # the receiver is a real client connection (Hello answered, no call outstanding): replies
@@ -142,6 +143,25 @@ def recv_side(ctx):
             setattr(proto, hname, record.append)
         tx = conn.b
         pipe = conn.pipes[1]
+    elif ds.flag(0.3):
+        # the receiver is the accepting side and the peer pipelines its handshake with its first
+        # messages: descriptors may arrive in the read that still holds the BEGIN line
+        sim.probe('receiver-accepts-pipelined-handshake')
+        from checks.c04 import _Factory
+        proto = Rec()
+        proto._client = False
+        proto.authenticator = authentication.BusAuthenticator
+        proto.factory = _Factory()
+        node = Node('rx', serial_start=5)
+        peer = DumbPeer('tx')
+        ctx.seams.set_linux(False)       # no peer-credential lookup on this side
+        conn = net.Connection(sim, 'c', node, None, unix=True)
+        conn.attach(proto, peer)
+        tx = conn.b
+        pipe = conn.pipes[1]
+        tx.write(b'\0AUTH ANONYMOUS\r\n')
+        tx.write(b'NEGOTIATE_UNIX_FD\r\nBEGIN\r\n')
+        pipelined = True
     else:
         proto = Rec()
         node = Node('rx', serial_start=5)
@@ -153,7 +173,7 @@ def recv_side(ctx):
         tx.write(b'OK 0123456789abcdef\r\nAGREE_UNIX_FD\r\n')
         net.deliver(sim, pipe, len(pipe.buf))
         net.deliver(sim, conn.pipes[0], len(conn.pipes[0].buf))
-    if not getattr(proto, '_authenticated', True):
+    if not pipelined and not getattr(proto, '_authenticated', True):
         raise Violation('C20/harness', 'handshake', 'receiver not authenticated')
     n = 1 + ds.choose(12 * (3 if ctx.tier == 'thorough' else 1))
     msgs = []
@@ -308,17 +328,24 @@ def send_side(ctx):
             if ds.flag(0.3):
                 parts.append('s')
                 body.append('x')
+            # the same descriptor may be named by several arguments (a pty as stdin, stdout and
+            # stderr): every argument position travels
+            fd = next_fd
+            if fds and ds.flag(0.25):
+                fd = fds[-1]
+                sim.probe('same-descriptor-in-two-arguments')
+            else:
+                next_fd += 1
             if ds.flag(0.2) and nfd - k >= 1:
                 parts.append('ah')
-                body.append([next_fd])
+                body.append([fd])
             elif ds.flag(0.25) and nfd - k >= 1:
                 parts.append('(ih)')
-                body.append((1, next_fd))
+                body.append((1, fd))
             else:
                 parts.append('h')
-                body.append(next_fd)
-            fds.append(next_fd)
-            next_fd += 1
+                body.append(fd)
+            fds.append(fd)
         if ds.flag(0.3):
             parts.append('i')
             body.append(5)
